@@ -5,7 +5,7 @@ from . import lex, mon
 
 SPEC = {
     'rule': ('histories of 5-60 add_rule / delete_rule / add_dynamic_type / add_dynamic_type_item calls interleaved with evaluations, over a pool '
-             'of 15 rule specs (named NUMBER / TEXT / MONEY / PERCENT fields encoded into the returned number, two specs sharing a pattern, two '
+             'of 17 rule specs (named NUMBER / TEXT / MONEY / PERCENT fields encoded into the returned number, two specs sharing a pattern, two '
              'sharing a name, one declining, one for tr, one for an unknown language, one returning money, a word-group field and a Turkish operator word in patterns registered for tr) and 3 unit families (chains of 2-5 '
              'items with integer factors, duplicate family names and indices, an item for a missing family). Oracle: a model calculator '
              '(ordered surviving rules per language, families); return values and matching lines are judged against the model during the '
@@ -36,7 +36,15 @@ RULES = {
     'N': {'lang': 'en', 'patterns': ['dozen'], 'spec': {'name': 'r13', 'kind': 'const', 'value': 12}},      # a one-word pattern (shorter than every built-in pattern)
     'O': {'lang': 'en', 'patterns': ['mint {TEXT:coin}'], 'spec': {'name': 'r14', 'kind': 'encode', 'weights': {'coin': 100}, 'text_codes': {'btc': 1, 'eth': 2},
                                                                  'decline_unknown_text': True}},     # declines unknown coins, accepts known ones
+    'P': {'lang': 'tr', 'patterns': ['çay {NUMBER:n}', '{NUMBER:n} kutu süt'], 'spec': {'name': 'r15', 'kind': 'encode', 'weights': {'n': 4}}},      # literal words with non-ASCII letters
+    'Q': {'lang': 'en', 'patterns': ['café {NUMBER:n}'], 'spec': {'name': 'r15', 'kind': 'encode', 'weights': {'n': 9}}},
     'M': {'lang': 'en', 'patterns': ['{GROUP:label:hour_group} {NUMBER:n}'], 'spec': {'name': 'r11', 'kind': 'encode', 'weights': {'n': 61}}},
+}
+
+DATE_RULES = {
+    'en': ['{MONTH:month} {NUMBER:day}, {NUMBER:year}', '{MONTH:month} {NUMBER:day} {NUMBER:year}', '{NUMBER:day}/{NUMBER:month}/{NUMBER:year}',
+           '{NUMBER:day} {MONTH:month} {NUMBER:year}', '{NUMBER:day} {MONTH:month}'],
+    'tr': ['{NUMBER:day}/{NUMBER:month}/{NUMBER:year}', '{NUMBER:day} {MONTH:month} {NUMBER:year}', '{NUMBER:day} {MONTH:month}'],
 }
 
 FAMILIES = {
@@ -64,6 +72,12 @@ def probes():
     out.append(('en', 'hours 5', '{GROUP:label:hour_group} {NUMBER:n}', {'n': 5}))
     out.append(('en', 'hour 9', '{GROUP:label:hour_group} {NUMBER:n}', {'n': 9}))
     out.append(('en', 'dozen', 'dozen', {}))
+    out.append(('tr', 'çay 3', 'çay {NUMBER:n}', {'n': 3}))
+    out.append(('tr', 'ÇAY 3', 'çay {NUMBER:n}', {'n': 3}))
+    out.append(('tr', 'Çay 3', 'çay {NUMBER:n}', {'n': 3}))
+    out.append(('tr', '3 KUTU SÜT', '{NUMBER:n} kutu süt', {'n': 3}))
+    out.append(('en', 'CAFÉ 3', 'café {NUMBER:n}', {'n': 3}))
+    out.append(('en', 'café 3', 'café {NUMBER:n}', {'n': 3}))
     out.append(('en', 'mint btc', 'mint {TEXT:coin}', {'coin': 'btc'}))
     out.append(('en', 'mint doge', 'mint {TEXT:coin}', {'coin': 'doge'}))
     out.append(('en', 'mint ETH', 'mint {TEXT:coin}', {'coin': 'eth'}))
@@ -141,7 +155,24 @@ class Model:
         return None
 
 
+# a family whose steps do not commute (an offset next to a factor): the order in which the declared steps are applied is observable
+AFFINE = {
+    'tfam': {
+        'words': ['tja', 'tjb', 'tjc', 'tjd'],
+        'up': ['{value} / 2', '{value} - 10', '{value} / 4', '{value}'],            # code of item k: to item k+1
+        'down': ['{value}', '{value} * 2', '{value} + 10', '{value} * 4'],           # code of item k: to item k-1
+        'up_f': [lambda x: x / 2, lambda x: x - 10, lambda x: x / 4],
+        'down_f': [None, lambda x: x * 2, lambda x: x + 10, lambda x: x * 4],
+    },
+}
+
+
 def item_op(name, index, c=0):
+    if name in AFFINE:
+        a = AFFINE[name]
+        word = a['words'][index - 1]
+        return {'op': 'add_type_item', 'c': c, 'name': name, 'index': index, 'format': '{value} %s' % word.upper(), 'parse': ['{NUMBER:value} {TEXT:type:%s}' % word],
+                'up': a['up'][index - 1], 'down': a['down'][index - 1], 'names': [word]}
     chain = FAMILIES[name]
     word, _ = chain[index - 1]
     up = '{value}' if index == len(chain) else '{value} / %d' % chain[index][1]
@@ -158,6 +189,22 @@ def rule_op(rid, c=0):
 def family_probes(model):
     out = []
     for name, items in model.families.items():
+        if name in AFFINE:
+            a = AFFINE[name]
+            idx = sorted(items)
+            for i in idx:
+                for j in idx:
+                    if i == j or any(k not in items for k in range(min(i, j), max(i, j) + 1)):
+                        continue
+                    x = 1680.0
+                    if j > i:
+                        for k in range(i, j):
+                            x = a['up_f'][k - 1](x)
+                    else:
+                        for k in range(i, j, -1):
+                            x = a['down_f'][k - 1](x)
+                    out.append(('en', '1680 %s to %s' % (a['words'][i - 1], a['words'][j - 1]), name, j, float(x)))
+            continue
         chain = FAMILIES[name]
         idx = sorted(items)
         for i in idx:
@@ -182,6 +229,45 @@ def strip(r):
     if 'panic' in r:
         return ('panic', r['panic'].get('msg'))
     return ('other', repr({k: r[k] for k in r if k in ('hang', 'crash', 'driver_error', 'ok')}))
+
+
+def complete_families(ctx, drv, cfg):
+    """Every user family registered completely (items in random order) on a new calculator: every ordered pair of items converts
+    along the declared chain, step by step in chain order (the affine family makes the order of the steps observable), also
+    through a variable and inside a sum."""
+    rng, res = ctx.rng, ctx.res
+    model = Model()
+    ops = [{'op': 'new_calc', 'c': 7, 'seg': True}] + gh.config_ops(cfg, 7, seg=False)
+    for name in list(FAMILIES) + list(AFFINE):
+        model.add_type(name)
+        ops.append({'op': 'add_type', 'c': 7, 'name': name})
+        n = len(FAMILIES[name]) if name in FAMILIES else len(AFFINE[name]['words'])
+        order = list(range(1, n + 1))
+        rng.shuffle(order)
+        for i in order:
+            model.add_item(name, i)
+            ops.append(item_op(name, i, 7))
+    probes_ = family_probes(model)
+    n0 = len(ops)
+    for lang, text, fam, j, want in probes_:
+        form = rng.randrange(3)
+        if form == 1:
+            text = 'zq = %s\nzq to %s' % tuple(text.split(' to '))
+        ops.append({'op': 'execute', 'c': 7, 'lang': lang, 'text': text})
+    rs = drv.run(ops)[n0:]
+    for (lang, text, fam, j, want), r in zip(probes_, rs):
+        slot = mon.last_slot(r)
+        res.cases += 1
+        res.count('class:family-conversion')
+        res.count('complete_family_conversions')
+        res.distinct.add('family', text)
+        res.cover('ordered pair of items of a user family converted', '%s|%s' % (fam, text.split(' ', 1)[1]), len(probes_))
+        ok = mon.kind(slot) == 'unit' and slot['v']['group'] == fam and slot['v']['index'] == j and abs(mon.fval(slot) - want) <= 1e-9 * max(abs(want), 1e-300)
+        if ok:
+            res.count('ok')
+        else:
+            res.violation('family:conversion', 'on a calculator with the complete user families the line %r should give %r in item %d of %s, got %s' % (text, want, j, fam, mon.describe(slot)),
+                          {'lang': lang, 'text': text, 'ops': ops[:n0] + [{'op': 'execute', 'c': 7, 'lang': lang, 'text': text}]})
 
 
 def decline_equivalence(ctx, drv, cfg):
@@ -235,6 +321,8 @@ def run_shard(ctx):
         n_hist += 1
         if n_hist % 8 == 1:
             decline_equivalence(ctx, drv, cfg)
+        if n_hist % 8 == 5:
+            complete_families(ctx, drv, cfg)
         model = Model()
         ops = [{'op': 'new_calc', 'c': 0, 'seg': True}] + gh.config_ops(cfg, 0, seg=False)
         meta = {}
@@ -249,13 +337,18 @@ def run_shard(ctx):
                 hist.append('add_rule %s' % rid)
             elif r < 0.45:
                 lang = rng.choice(['en', 'en', 'tr', 'xx'])
-                name = rng.choice(['r1', 'r2', 'r3', 'r5', 'r6', 'r8', 'r9', 'r10', 'r11', 'r12', 'r13', 'r14', 'nope'])
+                name = rng.choice(['r1', 'r2', 'r3', 'r5', 'r6', 'r8', 'r9', 'r10', 'r11', 'r12', 'r13', 'r14', 'r15', 'nope'])
                 want = model.delete_rule(lang, name)
                 ops.append({'op': 'delete_rule', 'lang': lang, 'name': name})
                 meta[len(ops) - 1] = ('ret', 'delete_rule(%s, %s)' % (lang, name), want)
                 hist.append('delete_rule %s %s' % (lang, name))
+            elif r < 0.49:
+                # the date patterns of a language are set again (to what they are by default): this must not touch the registered rules
+                lang = rng.choice(['en', 'tr'])
+                ops.append({'op': 'set_date_rule', 'lang': lang, 'patterns': DATE_RULES[lang]})
+                hist.append('set_date_rule %s' % lang)
             elif r < 0.53:
-                name = rng.choice(list(FAMILIES) + ['memory', 'metric-length'])
+                name = rng.choice(list(FAMILIES) + list(AFFINE) + ['memory', 'metric-length'])
                 want = model.add_type(name)
                 ops.append({'op': 'fingerprint'})
                 ops.append({'op': 'add_type', 'name': name})
@@ -265,8 +358,8 @@ def run_shard(ctx):
                     meta[len(ops) - 1] = ('fp-unchanged', len(ops) - 3, 'rejected add_dynamic_type(%s)' % name)
                 hist.append('add_type %s' % name)
             elif r < 0.68:
-                name = rng.choice(list(FAMILIES))
-                index = rng.randint(1, len(FAMILIES[name]))
+                name = rng.choice(list(FAMILIES) + list(AFFINE))
+                index = rng.randint(1, len(FAMILIES[name]) if name in FAMILIES else len(AFFINE[name]['words']))
                 want = model.add_item(name, index)
                 ops.append({'op': 'fingerprint'})
                 ops.append(item_op(name, index))
